@@ -60,6 +60,9 @@ struct Shadowed
   // a program that re-uses a register as both operands (x = x * x) doubles every first-order error term per step, so
   // the "(n+1)" bounds of the statement are applied with n = max(position in the program, this count) - see DESIGN.md
   double ops = 0;
+  // upper bound of |log scale| of the exact element for groups with a scale part (C1): a program that keeps squaring
+  // leaves the double range in exact arithmetic as well, which is not what the statement is about - such registers are re-seeded
+  double lscale = 0;
 };
 
 template<typename G>
@@ -83,6 +86,7 @@ static void history_monitor(Report & rep)
     } else if (src == 2) x.lib = G::exp(gen_tangent<S>(l, r, am[r.below(7)], T_SMALL).template cast<S>());
     else x.lib = make_elem<G>(gen_coeffs<S>(l, r, am[r.below(7)], T_SMALL));
     x.M = l.matrix(toL(x.lib.coeffs()));
+    for (int sidx : l.scomplex) x.lscale = std::max<double>(x.lscale, std::abs(std::log(double(x.lib.coeffs().segment(sidx, 2).norm()))));
     return x;
   };
   auto fresh_tangent = [&](Rng & r) {
@@ -92,6 +96,11 @@ static void history_monitor(Report & rep)
     return a;
   };
 
+  auto tangent_lscale = [&](const Vec & a) {
+    double v = 0;
+    for (int q : l.logscale) v += std::abs(double(a(q)));
+    return v;
+  };
   // after-operation check
   auto check = [&](const Shadowed<G> & x, long n, const std::string & op, const std::string & st, const std::function<std::string()> & det) {
     const Vec c = toL(x.lib.coeffs());
@@ -122,7 +131,9 @@ static void history_monitor(Report & rep)
             const double c   = R[size_t(j)].ops + R[size_t(k)].ops + 1;
             R[size_t(i)].lib = R[size_t(j)].lib * R[size_t(k)].lib;
             R[size_t(i)].M   = Mat(R[size_t(j)].M * R[size_t(k)].M);
+            const double ls  = R[size_t(j)].lscale + R[size_t(k)].lscale;
             R[size_t(i)].ops = c;
+            R[size_t(i)].lscale = ls;
           }
           name             = "compose";
           break;
@@ -130,36 +141,42 @@ static void history_monitor(Report & rep)
           R[size_t(i)].lib = R[size_t(j)].lib.inverse();
           R[size_t(i)].M   = orc::inv(R[size_t(j)].M);
           R[size_t(i)].ops = R[size_t(j)].ops + 1;
+          R[size_t(i)].lscale = R[size_t(j)].lscale;
           name             = "inverse";
           break;
         case 2:
           R[size_t(i)].lib = G::exp(Tangent(Tn[size_t(t)].template cast<S>()));
           R[size_t(i)].M   = orc::exp_ref(l, Tn[size_t(t)]);
           R[size_t(i)].ops = 1;
+          R[size_t(i)].lscale = tangent_lscale(Tn[size_t(t)]);
           name             = "exp";
           break;
         case 3:
           R[size_t(i)].lib = R[size_t(j)].lib + Tangent(Tn[size_t(t)].template cast<S>());
           R[size_t(i)].M   = Mat(R[size_t(j)].M * orc::exp_ref(l, Tn[size_t(t)]));
           R[size_t(i)].ops = R[size_t(j)].ops + 1;
+          R[size_t(i)].lscale = R[size_t(j)].lscale + tangent_lscale(Tn[size_t(t)]);
           name             = "rplus";
           break;
         case 4:
           R[size_t(i)].M = Mat(R[size_t(i)].M * R[size_t(j)].M);  // before the library call (j may equal i)
           R[size_t(i)].lib *= G(R[size_t(j)].lib);
           R[size_t(i)].ops = R[size_t(i)].ops + R[size_t(j)].ops + 1;
+          R[size_t(i)].lscale = R[size_t(i)].lscale + R[size_t(j)].lscale;
           name = "*=";
           break;
         case 5:
           R[size_t(i)].lib += Tangent(Tn[size_t(t)].template cast<S>());
           R[size_t(i)].M = Mat(R[size_t(i)].M * orc::exp_ref(l, Tn[size_t(t)]));
           R[size_t(i)].ops += 1;
+          R[size_t(i)].lscale += tangent_lscale(Tn[size_t(t)]);
           name           = "+=";
           break;
         case 6:
           R[size_t(i)].lib = R[size_t(j)].lib.template cast<S>();
           R[size_t(i)].M   = R[size_t(j)].M;
           R[size_t(i)].ops = R[size_t(j)].ops + 1;
+          R[size_t(i)].lscale = R[size_t(j)].lscale;
           name             = "cast";
           break;
         case 7:
@@ -171,16 +188,19 @@ static void history_monitor(Report & rep)
             R[size_t(i)].lib = R[size_t(j)].lib.lift_se3().project_se2();
             R[size_t(i)].M   = R[size_t(j)].M;
             R[size_t(i)].ops = R[size_t(j)].ops + 2;
+            R[size_t(i)].lscale = R[size_t(j)].lscale;
             name             = "project(lift)";
           } else if constexpr (requires(G g) { g.lift_so3(); }) {
             R[size_t(i)].lib = R[size_t(j)].lib.lift_so3().project_so2();
             R[size_t(i)].M   = R[size_t(j)].M;
             R[size_t(i)].ops = R[size_t(j)].ops + 2;
+            R[size_t(i)].lscale = R[size_t(j)].lscale;
             name             = "project(lift)";
           } else {
             R[size_t(i)].lib = R[size_t(j)].lib * R[size_t(j)].lib.inverse();
             R[size_t(i)].M   = orc::eye(l.dim);
             R[size_t(i)].ops = 2 * R[size_t(j)].ops + 2;
+            R[size_t(i)].lscale = 0;
             name             = "x*inverse(x)";
           }
         }
@@ -189,6 +209,12 @@ static void history_monitor(Report & rep)
       {
         const bool amplified = R[size_t(i)].ops > double(n + 1);
         if (amplified) rep.count("C15.programs.reuse_amplified_results");
+        if (R[size_t(i)].lscale > 150) {
+          // exact scale beyond exp(+-150): the next product could leave the double range in exact arithmetic too
+          R[size_t(i)] = fresh(r);
+          rep.count("C15.programs.reseeded_scale_range");
+          continue;
+        }
         if (R[size_t(i)].ops > 1e6) {
           // the expression tree is too large for any bound to be meaningful: the register is re-seeded
           R[size_t(i)] = fresh(r);
